@@ -1,7 +1,9 @@
 package c15
 
 import (
+	"fmt"
 	"reflect"
+	"runtime"
 	"sort"
 	"strings"
 	"sync"
@@ -193,12 +195,68 @@ func (m *caseMon) leave(idx int) {
 type traceDbg struct {
 	inner util.ECALDebugger
 	m     *caseMon
+
+	dead    int32  // a command did not return: the debugger is not called any more
+	witness string // goroutine dump excerpt of the lock that is held for good ("" = none found)
+	deadCmd string
 }
 
-func (w *traceDbg) HandleInput(input string) (interface{}, error) { return w.inner.HandleInput(input) }
-func (w *traceDbg) StopThreads(d time.Duration) bool              { return w.inner.StopThreads(d) }
-func (w *traceDbg) BreakOnStart(flag bool)                        { w.inner.BreakOnStart(flag) }
-func (w *traceDbg) BreakOnError(flag bool)                        { w.inner.BreakOnError(flag) }
+const dbgFrame = "github.com/krotik/ecal/interpreter.(*ecalDebugger)."
+
+// cmd runs a debugger command (never a Visit* call of a debugged thread) on a
+// goroutine of its own and waits for it. A command that does not return is
+// decided by sched.LockHeldForGood, never by the time it took; from then on
+// the debugger of this session is left alone.
+func (w *traceDbg) cmd(name string, f func()) {
+	if atomic.LoadInt32(&w.dead) == 1 {
+		return
+	}
+	done := make(chan interface{}, 1)
+	var gid uint64
+	go func() {
+		atomic.StoreUint64(&gid, sched.GoID())
+		defer func() { done <- recover() }()
+		f()
+	}()
+	for i := 0; ; i++ {
+		select {
+		case r := <-done:
+			if r != nil {
+				panic(r)
+			}
+			return
+		default:
+		}
+		if i < 300 {
+			runtime.Gosched()
+			continue
+		}
+		time.Sleep(40 * time.Microsecond)
+		if i > 3000 && i%1000 == 0 {
+			if ok, wit := sched.LockHeldForGood(sched.Dump(), atomic.LoadUint64(&gid), dbgFrame); ok {
+				w.witness, w.deadCmd = wit, name
+				atomic.StoreInt32(&w.dead, 1)
+				return
+			}
+		}
+		if i > 400000 {
+			w.deadCmd = name
+			atomic.StoreInt32(&w.dead, 1)
+			return
+		}
+	}
+}
+
+func (w *traceDbg) HandleInput(input string) (res interface{}, err error) {
+	w.cmd("HandleInput "+input, func() { res, err = w.inner.HandleInput(input) })
+	return
+}
+func (w *traceDbg) StopThreads(d time.Duration) (res bool) {
+	w.cmd("StopThreads", func() { res = w.inner.StopThreads(d) })
+	return
+}
+func (w *traceDbg) BreakOnStart(flag bool) { w.cmd("BreakOnStart", func() { w.inner.BreakOnStart(flag) }) }
+func (w *traceDbg) BreakOnError(flag bool) { w.cmd("BreakOnError", func() { w.inner.BreakOnError(flag) }) }
 func (w *traceDbg) SetLockingState(o map[string]uint64, l *datautil.RingBuffer) {
 	w.inner.SetLockingState(o, l)
 }
@@ -225,23 +283,38 @@ func (w *traceDbg) VisitStepOutState(node *parser.ASTNode, vs parser.Scope, tid 
 	return w.inner.VisitStepOutState(node, vs, tid, soErr)
 }
 func (w *traceDbg) RecordThreadFinished(tid uint64)       { w.inner.RecordThreadFinished(tid) }
-func (w *traceDbg) SetBreakPoint(source string, line int) { w.inner.SetBreakPoint(source, line) }
+func (w *traceDbg) SetBreakPoint(source string, line int) {
+	w.cmd("SetBreakPoint", func() { w.inner.SetBreakPoint(source, line) })
+}
 func (w *traceDbg) DisableBreakPoint(source string, line int) {
-	w.inner.DisableBreakPoint(source, line)
+	w.cmd("DisableBreakPoint", func() { w.inner.DisableBreakPoint(source, line) })
 }
-func (w *traceDbg) RemoveBreakPoint(source string, line int) { w.inner.RemoveBreakPoint(source, line) }
-func (w *traceDbg) ExtractValue(threadID uint64, varName string, destVarName string) error {
-	return w.inner.ExtractValue(threadID, varName, destVarName)
+func (w *traceDbg) RemoveBreakPoint(source string, line int) {
+	w.cmd("RemoveBreakPoint", func() { w.inner.RemoveBreakPoint(source, line) })
 }
-func (w *traceDbg) InjectValue(threadID uint64, varName string, expression string) error {
-	return w.inner.InjectValue(threadID, varName, expression)
+func (w *traceDbg) ExtractValue(threadID uint64, varName string, destVarName string) (err error) {
+	w.cmd("ExtractValue", func() { err = w.inner.ExtractValue(threadID, varName, destVarName) })
+	return
+}
+func (w *traceDbg) InjectValue(threadID uint64, varName string, expression string) (err error) {
+	w.cmd("InjectValue", func() { err = w.inner.InjectValue(threadID, varName, expression) })
+	return
 }
 func (w *traceDbg) Continue(threadID uint64, contType util.ContType) {
-	w.inner.Continue(threadID, contType)
+	w.cmd(fmt.Sprintf("Continue %d %v", threadID, contType), func() { w.inner.Continue(threadID, contType) })
 }
-func (w *traceDbg) Status() interface{}                  { return w.inner.Status() }
-func (w *traceDbg) LockState() interface{}               { return w.inner.LockState() }
-func (w *traceDbg) Describe(threadID uint64) interface{} { return w.inner.Describe(threadID) }
+func (w *traceDbg) Status() (res interface{}) {
+	w.cmd("Status", func() { res = w.inner.Status() })
+	return
+}
+func (w *traceDbg) LockState() (res interface{}) {
+	w.cmd("LockState", func() { res = w.inner.LockState() })
+	return
+}
+func (w *traceDbg) Describe(threadID uint64) (res interface{}) {
+	w.cmd("Describe", func() { res = w.inner.Describe(threadID) })
+	return
+}
 
 // ---------------------------------------------------------------------------
 // clean-up after a stuck verdict: wake the parked goroutine by broadcasting on
